@@ -45,6 +45,7 @@ def run(ctx):
     try:
         imported(F, res, ev)
         exported(F, res, ev)
+        lookups(F, res)
     except EvalError as e:
         res.error('not analysable: %s' % e)
     return res
@@ -66,6 +67,55 @@ def builder_sig_ok(w, ty_term_pred):
     if not ty_term_pred(mp.group(1)):
         return 'the signature is not the one of the replaced function: %s' % mp.group(1)[:100]
     return None
+
+
+def lookups(F, res):
+    """the lookups both replace functions start from: get_exported_func(f) / get_imported_func(f) select an entry exactly when it
+    is a *function* entry whose function is f - no entry of another kind can be selected, and none that qualifies is discarded"""
+    for p, field in (('module::exports::ModuleExports::get_exported_func', 'item'), ('module::imports::ModuleImports::get_imported_func', 'kind')):
+        short = p.split('::')[-1]
+        if p not in F.hir:
+            res.error('anchor lost: ' + p)
+            continue
+        ws = Evaluator(F, local_policy(F, p, events=[r'^std::'])).run_fn(p, [sym('self'), sym('f')])
+        bad = None
+        sel = 0
+        for w in ws:
+            if w.outcome != 'return':
+                bad = 'a path ends in %s' % w.outcome
+                continue
+            v = w.value
+            while v[0] == 'ok':
+                v = v[1]
+            if not (v[0] == 'call' and v[1].split('::')[-1] in ('find', 'find_map') and len(v[2]) == 2 and 'self.arena' in show(v[2][0])):
+                bad = 'the result is %s, not a search of this collection' % show(v)[:80]
+                continue
+            verdict = show(v[2][1])
+            variant = [vv[2] for k, vv in w.assumptions if isinstance(vv, tuple) and vv and vv[0] == 'ctor'
+                       and show(k).endswith('.' + field)]
+            eq_true = False
+            for k, vv in w.assumptions:
+                if isinstance(k, tuple) and k and k[0] == 'atom':
+                    t = k[1]
+                    if t[0] == 'bin' and t[1] == 'Eq' and vv is True and {show(t[2]), show(t[3])} & {'f'} \
+                            and any(x.endswith('.%s.Function.0' % field) for x in (show(t[2]), show(t[3]))):
+                        eq_true = True
+            if 'Function.0 Eq f' in verdict or 'f Eq ' in verdict and 'Function.0' in verdict:
+                eq_true, verdict = True, 'True'
+            selects = verdict not in ('False', 'Option::None')
+            if selects:
+                sel += 1
+                if variant != ['Function'] or not eq_true:
+                    bad = 'an entry is selected although it is %s%s' % (variant[0] if variant else 'of unknown kind',
+                                                                        '' if eq_true else ' / its function is not compared with the argument')
+            elif variant == ['Function'] and eq_true:
+                bad = 'a function entry for f is not selected'
+        if bad:
+            res.bad('lookup/' + short, '%s: %s' % (short, bad))
+        elif sel:
+            res.ok('lookup/' + short, {'lookup': short, 'selects': 'exactly the entries that are Function(f)'})
+        else:
+            res.error('%s: no selecting world' % short)
 
 
 def args_agree(w, res, which):
